@@ -101,6 +101,11 @@ pub fn is_name_valid(s: &str) -> bool {
         log::info!("base name length {} out of range",base.len());
         return false;
     }
+    // trailing blanks are the padding of the 8+3 fields, `A .TXT` would be stored as `A.TXT`
+    if base.ends_with(' ') || ext.ends_with(' ') {
+        log::info!("name or extension ends with a blank");
+        return false;
+    }
     if ext.len()>3 {
         log::info!("extension name too long, max 3");
         return false;
